@@ -1,13 +1,15 @@
 """C07 - the source emits a conformant, complete and size-bounded PDU stream (in-situ invariant)."""
 from __future__ import annotations
 
-from props import insitu
+from props import insitu, pops
 from props.monitors import SenderStream
 
 RULE = (
     "SenderStream model judged on every PDU entity a's source handler emits in the fault-free (all pacings), "
     "bounded-fault (NAK / poll interleaving) and cancel populations, full configuration swarm; non-trivial = the "
-    "population's own rule (pacing varied / faults fired / cancel accepted); distinct = interleaving signature"
+    "population's own rule (pacing varied / faults fired / cancel accepted); in a quarter of the bounded-fault and cancel runs "
+    "the sender's filestore raises on tape-chosen read_data calls (transient storage fault, the user keeps calling); "
+    "distinct = interleaving signature"
 )
 ASSUMPTIONS = ["original vs retransmitted File Data is decided by the inbound PDU of the call (a NAK) and by offset"]
 BUDGET = {"quick": 25, "thorough": 600}
@@ -16,6 +18,11 @@ BUDGET = {"quick": 25, "thorough": 600}
 def attach(ctx):
     m = SenderStream(ctx.w)
     ctx.info["stream"] = m
+    w = ctx.w
+    if ctx.pop != "faultfree" and w.fs_fault_x is None and w.tape.choose(4, "source store hiccups") == 3:
+        # storage fault at the sender: read_data raises for a while (the exception comes out of state_machine, the user keeps
+        # calling); the stream that is emitted around it must still tile the file exactly once
+        pops.source_store_hiccups(w, w.tape)
     return [m]
 
 
